@@ -1,16 +1,86 @@
 """Per-property claim texts for MANIFEST.json (what the static check decides, in my own words)."""
 
-STRUCT = "Structural clauses only (necessary conditions of the property, decided for all inputs/configurations at once from the source); the numerical clauses are not decided by this family - see DESIGN.md section 4/6. "
+STRUCT = ("Structural clauses only: necessary conditions of the property, decided from the source for all inputs/configurations at once; "
+          "the numerical clauses (accuracy, tolerances, floating point) are NOT decided by this family - see DESIGN.md 4 and 6. ")
+
+DEG = "abstract interpretation in a homogeneity-degree/unit domain"
+IDX = "symbolic index/polynomial evaluation over the ast"
+STR = "resolved-ast structural rules (def-use, flow-sensitive expansion)"
+
+CLAIMS = {
+    "C01": (f"{IDX} + {STR}",
+            "Shift-invariance structure of the three realisation routines (one matrix, one shift = channel count, up/down roles, QR or pinv form, "
+            "C = first block), one truncation index per order, SSI_poles slot discipline, and the normal form of the z->s pole map; all as polynomial/"
+            "structural identities valid for every block-row and channel count. Does not decide that identified values equal the system's."),
+    "C02": (f"{DEG} + {STR}",
+            "merge_mode_shapes is homogeneous of degree 1 in the first setup's scale and 0 in every other setup's (the factor is applied in the right "
+            "direction), MSF(a,b) ~ b/a, merged Fn/Xi are means over the setup axis and their dispersion a population std divided by the mean; row-order "
+            "signature agreement with the name flattening. Optimality on noisy shapes and complex factors are not decided."),
+    "C03": (f"{DEG} + {IDX}",
+            "SSI_multi_setup re-bases every setup on the first setup's reference block: the global observability matrix is homogeneous in the first "
+            "setup's gain alone for cov_mm/cov_R/dat, hence poles independent of per-setup amplitudes; reference/roving index maps and block interleaving "
+            "as index identities. Exact identification is not decided."),
+    "C04": (f"{DEG} + {STR}",
+            "Every block of the merged PreGER spectrum has the support of the mean reference block (transmissibility of degree 0 in its setup's gain); "
+            "nxseg/method/pov reach the estimator and scipy; the returned grid is the estimator's. Equality with the single-setup matrix is not decided."),
+    "C05": (f"{DEG} + {STR}",
+            "z->s map normal form of ac2mp_poly (sibling of ssi.ac2mp), joint blanking of unstable eigenvalues and eigenvector columns, dimensionless basis "
+            "function, coefficient degrees (alpha ~ 1, beta ~ S), NaN padding of the four tables. Normal equations/companion form correctness not decided."),
+    "C06": (STR,
+            "Band limits on one grid, first/second singular-value ratio over one slice, arg-max selection, slice-origin re-basing of the picked line for "
+            "frequency and vector alike, dominant vector, writer/reader agreement on the singular-vector layout. MAC=1 and unitarity are not decided."),
+    "C07": (DEG,
+            "The array handed to the inverse FFT (the SDOF bell) has degree 1 in the spectral matrix for EFDD and FSDD, Fn/Xi have degree 0 in it and the "
+            "right time unit; no dimensional log/exp. The 2.5 %/15 % accuracy is not decided."),
+    "C08": (f"{DEG} + def-use rule",
+            "For all 30 algorithm/method configurations every run()/mpe() output is a homogeneous function of the data gain (degree 0) and of the time "
+            "unit (frequencies 1/s, damping/shapes 1), no decision on the way is scale dependent, each normalisation divides a vector by its own "
+            "largest-magnitude component. Permutation/rotation equivariance is not decided."),
+    "C09": ("dependence/taint interpretation + structural rules",
+            "Each criterion of the run-parameter defaults reaches every pole table of the result (all six classes, criteria enabled), all tables share one "
+            "criteria set, hc keys are bound to the implementing parameters, the keep-conditions have the stated sense, applymask keeps/NaNs correctly. "
+            "Behaviour within 1e-9 of a threshold is not decided."),
+    "C10": (f"{STR} + {IDX}",
+            "SC_apply compares with the previous order, matches the nearest pole in frequency with one index for all three quantities, tests each relative "
+            "difference strictly against its own tolerance joined by and, loops over range(ordmin, ordmax+1, step), skips the first column, writes only "
+            "0/1 into a fresh array; readers compare labels only with values the writer produces."),
+    "C11": (STR,
+            "SSI_mpe/pLSCF_mpe (int, list, find_min): closeness test against the loop's own frequency, all values of a mode from one (row, column) with "
+            "column = requested order and row = nearest pole, appends guarded by the test, slots fed by the table of the same kind, first-qualifying-order "
+            "scan, and the hand-over in the four mpe methods. Absolute-vs-relative band of find_min and pLSCF's find_min loop are not decided."),
+    "C12": (IDX,
+            "Lag/length/weight/bounds of every block of the Hankel (cov_mm, dat) and Toeplitz (cov_R) matrices as polynomial identities in (br, channels, "
+            "record length): lag i+c+1 resp. br+i-c, equal lengths, uniform weights, windows inside the record, br+1 x br+1 blocks, all-channel rows and "
+            "reference columns, R-factor block of the dat method; bilinearity by degree analysis. The projection identity is not decided."),
+    "C13": (f"{DEG} + {STR}",
+            "Frequency grid unit and spacing, bilinearity of the spectral matrix in (data, reference data), operand pairing/axes of the csd calls (fixes the "
+            "(i,j) pairing and the conjugation convention), overlap/segment/window keywords. Welch equivalence and tolerances are not decided."),
+    "C14": (f"{DEG} (inductive invariants per mutator) + {STR}",
+            "The representation invariant (dt*fs=1, duration = samples*dt, counts = extents of the stored arrays, data = split(stored datasets)) is established "
+            "by the constructors and preserved by every mutator from an arbitrary invariant state, hence after every call sequence; post-conditions of "
+            "decimate/detrend/filter/rollback/add_algorithms; kwargs forwarding; no in-place effect on user or initial arrays."),
+    "C15": (f"{STR} over the resolved call graph",
+            "Gate order in run_by_name, _pre_run conditions, every mpe/mpe_from_plot override gated before its first store, no in-place effect on shared "
+            "data and no nondeterministic source in any function reachable from run/mpe, fresh result objects, instance-only state, PoSER validation "
+            "structure (ValueError only, count guard, checked yields, eager exhaustion), picklable instance attributes."),
+    "C16": (STR,
+            "Per dialog variant: the frequency list and its partner list receive the same mutation in every block of every reachable method (so pairs "
+            "survive any click sequence), no list arithmetic, pick = nearest order then nearest retained pole, deselect-nearest by frequency, result tuple."),
+    "C17": (f"{IDX} + {STR}",
+            "Vectorisation order of the covariance factor vs the Kronecker forms of the propagation, orientation of the singular-vector selections, block "
+            "estimate scaling as a polynomial identity, 1/sqrt(nb(nb-1)) scaling, variance slot. Equality with a directional derivative is not decided."),
+    "C18": (f"{DEG} + {STR}",
+            "Degree 0 of MAC/MPC/MPD/MCF in each argument's real scale and MSF ~ b/a; every arccos argument clipped, sqrt arguments sums of squares, "
+            "per-component quotients guarded (finite, never NaN); MAC row/column/normaliser pairing. Bounds and complex-factor invariance not decided."),
+    "C19": (STR,
+            "Forward presence analysis of the sheet dictionary (every optional-sheet read guarded), zero-basing list covers all index sheets, re-indexing by "
+            "the flattened sensor names of what is returned, ValueError-only validation, attribute compatibility with the documented argument types."),
+    "C20": (STR,
+            "Signature conformance of every call into functions.plot, keyword binding of result fields, one flatten order with a consistent order-axis "
+            "formula scaled by step, label selections with NaN fill for frequency and damping alike, CMIF curves relative to the first singular value's maximum."),
+}
 
 
 def register(claim, na):
-    claim("C08", "abstract interpretation in a homogeneity-degree/unit domain + def-use rule",
-          STRUCT + "Proves, relative to the transfer table, that for all 30 algorithm/method configurations every run()/mpe() output is a homogeneous "
-          "function of the data gain (degree 0) and of the time unit (frequencies s^-1, damping/shapes 1), that no decision on the way is "
-          "scale dependent, and that each normalisation divides a vector by its own largest-magnitude component. Permutation/rotation "
-          "equivariance is not decided.", "DESIGN.md 4 (C08)")
-    pending = "check not implemented yet at this commit (design in DESIGN.md section 4); no claim is made"
-    for i in range(1, 21):
-        pid = f"C{i:02d}"
-        if pid not in ("C08",):
-            na(pid, pending)
+    for pid, (tech, text) in CLAIMS.items():
+        claim(pid, tech, STRUCT + text, f"DESIGN.md 4 ({pid})")
